@@ -109,6 +109,15 @@ Definition spec_curve_name (oid : bytes) : option bytes :=
   else if bytes_eqb oid [43; 6; 1; 4; 1; 218; 71; 15; 1] then Some (bs "Ed25519")
   else None.                                         (* Curve25519 for ECDH: a Curve attribute is optional *)
 
+(* field size of the curves (FIPS 186-4 D.1.2, RFC 7748): what `gpg --list-keys` prints as the key length *)
+Definition spec_curve_bits (oid : bytes) : option Z :=
+  if bytes_eqb oid [42; 134; 72; 206; 61; 3; 1; 7] then Some 256%Z
+  else if bytes_eqb oid [43; 129; 4; 0; 34] then Some 384%Z
+  else if bytes_eqb oid [43; 129; 4; 0; 35] then Some 521%Z
+  else if bytes_eqb oid [43; 6; 1; 4; 1; 218; 71; 15; 1] then Some 255%Z       (* Ed25519 *)
+  else if bytes_eqb oid [43; 6; 1; 4; 1; 151; 85; 1; 5; 1] then Some 255%Z     (* Curve25519 *)
+  else None.
+
 (* RFC 4880 5.2.3.21: key flags, first octet *)
 Definition spec_flag_names : list (N * bytes) :=
   [(1, bs "certify"); (2, bs "sign"); (4, bs "encrypt communications"); (8, bs "encrypt storage"); (32, bs "authentication")].
@@ -204,12 +213,24 @@ Definition key_attrs_ok (kr : arg) (attrs : list (bytes * bytes)) : option strin
                   | None, None => true
                   end in
                 if negb curve_ok then Some "Curve does not match the key's curve OID"%string
+                else if Nat.ltb 1 (count_attr (bs "Size") attrs) then Some "more than one Size attribute"%string
                 else if (0 <=? bits)%Z then
+                  (* RSA, DSA, ElGamal: the bit length of the modulus / prime *)
                   match attr_lookup (bs "Size") attrs with
                   | Some s => if bytes_eqb s (dec_of_Z bits ++ bs " bits") then None else Some "Size is not the bit length of the modulus / prime"%string
                   | None => Some "no Size attribute"%string
                   end
-                else None
+                else
+                  (* elliptic-curve keys: a Size need not be shown, but one that is shown is the size of the curve's field *)
+                  match attr_lookup (bs "Size") attrs with
+                  | None => None
+                  | Some s =>
+                      match spec_curve_bits oid with
+                      | Some b => if bytes_eqb s (dec_of_Z b ++ bs " bits") then None
+                                  else Some "Size of an elliptic-curve key is not the size of its curve's field (256 / 384 / 521 / 255 bits)"%string
+                      | None => Some "a Size is shown for a key that has neither a modulus nor a known curve"%string
+                      end
+                  end
           end
       end
   end.
